@@ -422,8 +422,22 @@ fn numbers_bounded(s: &str) -> bool {
     true
 }
 
+/// are the cost parameters the string *will be parsed to* small enough to hash? Decided with the crate's own parser
+/// (a string it refuses is never hashed) and the canonical re-encoding of what it accepted, so that lenient number
+/// syntax the scanner above does not know ("m=+00477317851" is accepted by u32::from_str) cannot slip through as "bounded".
+fn costs_bounded(s: &str) -> bool {
+    if !numbers_bounded(s) {
+        return false;
+    }
+    match guard("costs_bounded", || PwHash::<Vec<u8>, Vec<u8>>::from_string(s).map(|p| p.to_string())) {
+        Ok(Ok(canon)) => numbers_bounded(&canon),
+        Ok(Err(_)) => true,
+        Err(_) => false,
+    }
+}
+
 fn pw_case(cx: &mut Ctx, s: &str, family: &str, hash_ok: bool) {
-    let bounded = numbers_bounded(s);
+    let bounded = costs_bounded(s);
     let bound = 4 << 20;
     let case = || json!({"string":s.chars().take(200).collect::<String>(),"family":family,"bounded_costs":bounded});
     let mut one = |cx: &mut Ctx, name: &str, f: &dyn Fn()| {
@@ -466,6 +480,24 @@ fn pw_case(cx: &mut Ctx, s: &str, family: &str, hash_ok: bool) {
     cx.cover("pwhash_family", family);
 }
 
+/// canonical unpadded base64 (the monitor of C10 has its own; that module needs the libsodium feature)
+fn b64enc_nopad(d: &[u8]) -> String {
+    const A: &[u8] = b"ABCDEFGHIJKLMNOPQRSTUVWXYZabcdefghijklmnopqrstuvwxyz0123456789+/";
+    let mut out = String::new();
+    for ch in d.chunks(3) {
+        let n = (ch[0] as u32) << 16 | (*ch.get(1).unwrap_or(&0) as u32) << 8 | *ch.get(2).unwrap_or(&0) as u32;
+        out.push(A[(n >> 18) as usize & 63] as char);
+        out.push(A[(n >> 12) as usize & 63] as char);
+        if ch.len() > 1 {
+            out.push(A[(n >> 6) as usize & 63] as char);
+        }
+        if ch.len() > 2 {
+            out.push(A[n as usize & 63] as char);
+        }
+    }
+    out
+}
+
 fn b64(rng: &mut Rng, n: usize) -> String {
     const A: &[u8] = b"ABCDEFGHIJKLMNOPQRSTUVWXYZabcdefghijklmnopqrstuvwxyz0123456789+/";
     (0..n).map(|_| A[rng.below(64)] as char).collect()
@@ -498,7 +530,7 @@ fn pw_number_edges(cx: &mut Ctx, idx: &mut u64) {
                     _ => p = num.clone(),
                 }
                 // canonical base64 of 16 / 32 random bytes, so that the number is the only unusual part
-                let s = format!("${}$v={}$m={},t={},p={}${}${}", alg, v, m, t, p, super::c10::b64enc(&rng.bytes(16)), super::c10::b64enc(&rng.bytes(32)));
+                let s = format!("${}$v={}$m={},t={},p={}${}${}", alg, v, m, t, p, b64enc_nopad(&rng.bytes(16)), b64enc_nopad(&rng.bytes(32)));
                 cx.key(&format!("pw_number_edges {} {} {}", field, ni_, alg));
                 pw_case(cx, &s, "number_edges", false);
                 cx.cover("pw_number_edge_field", field);
@@ -971,7 +1003,7 @@ pub fn fuzz_one(data: &[u8]) {
         assert!(peak <= 64 * input.len() + (1 << 20), "absurd allocation of {} bytes in {} for a {}-byte input", peak, ep.name, input.len());
     } else {
         let s = String::from_utf8_lossy(input);
-        let bounded = numbers_bounded(&s);
+        let bounded = costs_bounded(&s);
         let _ = crypto_pwhash_str_needs_rehash(&s, 2, 65536);
         if let Ok(p) = PwHash::<Vec<u8>, Vec<u8>>::from_string(&s) {
             let _ = p.to_string();
